@@ -559,12 +559,18 @@ func coordinate(e Engine, x *Ctx, o coordOpts) int {
 	for _, h := range crashes {
 		c := plan[h]
 		rf := &ReplayFile{Property: e.ID(), Tier: o.tier, VerifSeed: o.seed, Case: c, RepoTree: o.repoTree,
-			Violation: &Violation{Class: "crash", Message: "the process running this case died with a fatal runtime error (not a recoverable panic)"}}
+			Violation: &Violation{Class: "crash", Message: "the process running this case died with a fatal runtime error (out of memory, stack exhaustion, ...: not a recoverable panic)"}}
 		path := writeReplay(o.replayDir, rf, "")
 		cmd := exec.Command(exe, append(selfArgs(e, o), "-replay", path)...)
-		cmd.Stdout, cmd.Stderr = os.Stderr, os.Stderr
+		var crashOut strings.Builder
+		cmd.Stdout, cmd.Stderr = &crashOut, &crashOut
 		code := runWithTimeout(cmd, 10*time.Minute)
-		if code != exitOK && code != exitViolation && code != exitInfra {
+		// a fatal runtime error of Go exits with status 2 as well: tell it from harness trouble by its banner
+		fatal := strings.Contains(crashOut.String(), "fatal error:") || strings.Contains(crashOut.String(), "goroutine stack exceeds")
+		if l := crashOut.String(); len(l) > 0 {
+			fmt.Fprintln(os.Stderr, firstLines(l, 6))
+		}
+		if (code != exitOK && code != exitViolation && code != exitInfra) || (code == exitInfra && fatal) {
 			fmt.Printf("VIOLATION property=%s replay=%s\n  class=crash\n", e.ID(), path)
 			violationNotes = append(violationNotes, "crash case "+fmt.Sprint(h))
 			reported++
@@ -681,6 +687,14 @@ func coordinate(e Engine, x *Ctx, o coordOpts) int {
 		return exitInfra
 	}
 	return exitOK
+}
+
+func firstLines(s string, n int) string {
+	ls := strings.Split(s, "\n")
+	if len(ls) > n {
+		ls = ls[:n]
+	}
+	return strings.Join(ls, "\n")
 }
 
 func firstLine(s string) string {
